@@ -196,3 +196,19 @@ def root_param(e):
         else:
             return None, None
     return None, None
+
+
+def calls_in_loops(f, pred):
+    """call terminators of f that sit inside a loop body and whose callee satisfies pred: emissions a `for word in [a, b] { write(word) }`
+    hides from rules that count straight-line calls on returning paths (such a rule reports undecided, not a violation)"""
+    out = []
+    loops = f.loops()
+    if not loops:
+        return out
+    inloop = set()
+    for body in loops.values():
+        inloop |= set(body)
+    for bid, t in f.calls():
+        if bid in inloop and pred(f.callee(t) or f.callee_decl(t) or ''):
+            out.append((bid, t))
+    return out
